@@ -1639,6 +1639,9 @@ class AnsiString:
             idx = self._s.find(s, idx)
             split_idx_len.append((idx, len(s)))
             idx += len(s)
+            if sep is not None:
+                # The next substring starts after the separator, not within it
+                idx += len(sep)
 
         ansi_str_splits = []
         for idx, length in split_idx_len:
